@@ -114,6 +114,27 @@ class PFunc(object):
         self.name = name
 
 
+class PExt(object):
+    """An external callable with an assumed contract: may raise one of `raises` (each a free choice,
+    explored as its own path) or returns effect(engine, args, kwargs)."""
+
+    def __init__(self, name, effect=None, raises=(), pure=False):
+        self.name = name
+        self.effect = effect
+        self.raises = tuple(raises)
+        self.pure = pure
+
+
+class SameAs(object):
+    """parameter type: the very same object as another parameter"""
+
+    def __init__(self, other):
+        self.other = other
+
+    def __repr__(self):
+        return 'SameAs(%s)' % self.other
+
+
 class PBound(object):
     def __init__(self, recv, name):
         self.recv = recv
@@ -534,6 +555,8 @@ class Engine(object):
         return self.decide(self.truth(v))
 
     def fresh(self, ty, name):
+        if callable(getattr(ty, 'make', None)):
+            return ty.make(name)
         if isinstance(ty, ListOf):
             v = ty.seq.fresh(name)
             return PList(v)
@@ -545,7 +568,15 @@ class Engine(object):
         c = self.c
         frame = Frame(vars={})
         self.entry = {}
+        reset = c.env.get('__reset__')
+        if reset is not None:
+            reset()
         for pname, ty in typecase.items():
+            if isinstance(ty, SameAs):
+                v = frame.vars[ty.other]
+                frame.vars[pname] = v
+                self.entry[pname] = self.entry[ty.other]
+                continue
             v = self.fresh(ty, pname)
             frame.vars[pname] = v
             if isinstance(ty, T):
@@ -624,7 +655,7 @@ class Engine(object):
                     self.oblige('%s.raises.%s' % (c.funcname, n), z3.BoolVal(True), kind='raises')
                     self.cover('%s.raise.%s' % (c.funcname, n))
                     return
-                f = Frame(parent=self.entry_frame())
+                f = Frame(parent=self.frame0, vars={'__exc__': exc})
                 self.oblige('%s.raises.%s' % (c.funcname, n), self.coerce(self.ev_spec(cond, f), Bool),
                             kind='raises')
                 self.cover('%s.raise.%s' % (c.funcname, n))
@@ -1418,7 +1449,7 @@ class Engine(object):
             raise Unsupported('operator on objects')
         if k == 'Mod' and isinstance(a, str):
             args = b if isinstance(b, tuple) else (b,)
-            if any(is_sym(x) or isinstance(x, (PObj, PList, PDict)) for x in args):
+            if any(is_sym(x) or isinstance(x, (PObj, PList, PDict, PExc)) for x in args):
                 return SStr(z3.FreshConst(z3.StringSort(), 'fmt'))
             return a % b
         try:
@@ -1881,6 +1912,12 @@ class Engine(object):
             return fn(self, *args)
         if isinstance(fn, Helper):
             return fn.fn(self, *args)
+        if isinstance(fn, PExt):
+            for exc in fn.raises:
+                if self.decide_free('raises_%s_in_%s' % (getattr(exc, '__name__', exc), fn.name)):
+                    raise PyRaise(PExc(exc, tag=fn.name))
+            self.trusted_used['external:' + fn.name] = self.trusted_used.get('external:' + fn.name, 0) + 1
+            return fn.effect(self, args, kwargs) if fn.effect else None
         if hasattr(fn, 'instance') and hasattr(fn, 'statement'):
             ts = [term_of(a) if not isinstance(a, (PList, SSeq, SEnc, PGen)) else self.coerce(a, Seq(Int)) for a in args]
             return SBool(fn.instance(*ts))
@@ -2149,7 +2186,18 @@ class Engine(object):
             return c if fn is tuple else PList(c)     # symbolic: immutable SSeq stands for the tuple
         if fn is next:
             return self.builtin_next(args[0], node)
+        if fn is type and len(args) == 1:
+            v = args[0]
+            if isinstance(v, PExc):
+                return v.cls
+            if isinstance(v, PObj):
+                return v.cls
+            if not is_sym(v) and not isinstance(v, (PList, PDict)):
+                return type(v)
+            raise Unsupported('type() of %r' % (v,))
         if fn is callable:
+            if isinstance(args[0], PExt):
+                return True
             return isinstance(args[0], (PFunc, PBound)) or (not is_sym(args[0]) and not isinstance(args[0], (PObj, PList, PDict)) and callable(args[0]))
         if fn is getattr:
             if is_sym(args[1]):
@@ -2179,6 +2227,8 @@ class Engine(object):
             if fn in (sorted, reversed, enumerate, zip, range):
                 return PList(list(r))
             return r
+        if fn is str and args and isinstance(args[0], (PExc, PObj, SOpaque)):
+            return SStr(z3.FreshConst(z3.StringSort(), 'str'))
         if fn is str:
             if not args:
                 return ''
